@@ -2,6 +2,7 @@
 From RJ Require Import Base.Prelude Base.OrderedPlan Model.Settings Model.Core Model.Fs Model.Paths Model.Sync Model.SyncTop Model.Roots
   Spec.PlanSpec Spec.Mirror Proofs.ExecProofs Proofs.PathsProofs Proofs.MirrorProofs Proofs.InstanceProofs.
 From RJ Require Model.Walker Proofs.WalkBridge Proofs.WalkedSync.
+From RJ Require Import Model.SpecRun Proofs.SpecProofs.
 
 (* The mirror theorem: for every source tree, destination state, filter verdict, behaviour setting,
    answer sequence, listing order (any valid listing), interleaving and fault plan - if sync() returns
@@ -57,6 +58,36 @@ Proof. exact WalkedSync.walked_sync_mirrors. Qed.
 Theorem C01_walked_listing_exists : forall now_z incl normalize f, exists l, WalkedSync.walked now_z incl normalize f l.
 Proof. exact WalkedSync.walked_exists. Qed.
 
+(* SPEC FILES WITH SEVERAL SYNCS (Model/SpecRun.v).  Every sync that was started never went through a destination
+   link, and if it returned Ok without skips its destination then mirrored its source - the two trees as they
+   were when it began, i.e. including everything earlier syncs of the spec wrote (A -> B, then B -> C) ... *)
+Theorem C01_spec_each_sync_mirrors : forall jobs st, store_ok st ->
+  Forall (fun t =>
+    let j := t_job t in let S := sget (t_store t) (j_src j) in let D := sget (t_store t) (j_dst j) in
+    no_through (d_events (r_dest (t_res t))) /\
+    (src_times_set S -> links_utf8 S ->
+     r_ok (t_res t) = true -> r_skipped (t_res t) = [] -> r_root_skipped (t_res t) = false ->
+     cf_dry (j_cfg j) = false -> cf_fl (j_cfg j) = Unix ->
+     mirror now_far (excl_incl (j_ex j)) normalize_unix (cf_diff (j_cfg j)) Unix S D (d_fs (r_dest (t_res t)))))
+    (spec_trace jobs st).
+Proof. exact spec_each_sync. Qed.
+(* ... what it left is still there at the end of the run unless a later sync of the spec wrote to that root ... *)
+Theorem C01_spec_final_trees : forall jobs st pre t post,
+  spec_trace jobs st = pre ++ t :: post ->
+  j_src (t_job t) <> j_dst (t_job t) ->
+  (forall t', In t' post -> j_dst (t_job t') <> j_dst (t_job t) /\ j_dst (t_job t') <> j_src (t_job t)) ->
+  sget (sp_store (run_spec jobs st)) (j_dst (t_job t)) = d_fs (r_dest (t_res t)) /\
+  sget (sp_store (run_spec jobs st)) (j_src (t_job t)) = sget (t_store t) (j_src (t_job t)).
+Proof. exact spec_final_trees. Qed.
+(* ... every tree stays a well-formed tree whatever happens, and a mirrored destination has all its times set, so
+   it is fit to be the source of a later sync. *)
+Theorem C01_spec_stores_well_formed : forall jobs st, store_ok st ->
+  Forall (fun t => store_ok (t_store t)) (spec_trace jobs st) /\ store_ok (sp_store (run_spec jobs st)).
+Proof. exact spec_stores_ok. Qed.
+Theorem C01_mirror_keeps_times_set : forall incl diff S D D',
+  mirror now_far incl normalize_unix diff Unix S D D' -> src_times_set S -> src_times_set D -> src_times_set D'.
+Proof. exact mirror_keeps_times_set. Qed.
+
 (* Link text: what is written on the destination has the same components as the source text for a
    relative target and is the text itself otherwise; and it normalises to the same target again. *)
 Theorem C01_link_text : forall t, lossy t = t -> same_path_text t (denormalize Unix (normalize_unix t)) = true.
@@ -93,3 +124,7 @@ Print Assumptions C01_mirror_executable.
 Print Assumptions C01_table.
 Print Assumptions C01_mirror_walked.
 Print Assumptions C01_walked_listing_exists.
+Print Assumptions C01_spec_each_sync_mirrors.
+Print Assumptions C01_spec_final_trees.
+Print Assumptions C01_spec_stores_well_formed.
+Print Assumptions C01_mirror_keeps_times_set.
